@@ -2022,3 +2022,10 @@ mutant("c10-f35-placeholder-num-unchecked", "C10", "C10-D1", "parser/json/binary
 		return false, errInvalidPlaceholderNumValue
 	}
 	slot.Set(reflect.ValueOf(r.buffers[n]))""")
+
+# round 3 C19: Send outside the transport lock strands a packet on the abandoned transport
+mutant("c19-send-on-transport-read-earlier", "C19", "C19-D8", "engine.io/server_socket.go",
+       """	s.transportMu.RLock()
+	defer s.transportMu.RUnlock()
+	s.transport.Send(packets...)""",
+       """	s.Transport().Send(packets...)""")
